@@ -8,6 +8,16 @@ CLAIMED = {
    note="Trusted: Go type checker, go/ssa, frozen tables in checker/c02.go. Not covered: id density and byte equality under arbitrary schedules.",
    technique="who-may-call / who-may-write over the whole program, lockset dataflow, guard dominance, value provenance on SSA",
    ref="DESIGN.md §3 C02"),
+ "C05": dict(
+   text="Static decision of the completeness of the optimistic-validation wiring: every snapshot read of a read-write tx (found and not-found answers) records into the read-set; every record kind and field is validated at commit and counted by isEmpty(); validation runs under the store mutex, on the live index awaited up to the precommit frontier read inside the critical section, before performPrecommit; snapshots include the mandatory-MVCC tx. Necessary conditions of serializability, not a proof over interleavings.",
+   note="Trusted: Go type checker, go/ssa, tables in checker/c05.go; safe MVCC mode. Not covered: sufficiency of the recorded information.",
+   technique="must-pass-through and guard-dominance rules on the SSA CFG, struct-field coverage, lockset",
+   ref="DESIGN.md §3 C05"),
+ "C18": dict(
+   text="Static decision of the table-and-gate part of the access-control matrix for every RPC: constant, consistent permission tables; every database-touching handler passes getDBFromCtx with a constant method that has a row; handlers whose database calls can reach a commit sink (class computed from the call graph) are gated by rows without read-only permission; admin rows and admin handlers require admin/sysadmin; system-database allow-list has no write-class method; inside the gate success is dominated by the systemdb guard and the permission check; user changes invalidate sessions after saving; SQL statements that write report readOnly()==false.",
+   note="Trusted: Go type checker, go/ssa, tables in checker/c18.go; interceptor wiring and token arithmetic are not analysed.",
+   technique="constant-table evaluation, call-graph effect classification, guard dominance and must-pass-through on the SSA CFG",
+   ref="DESIGN.md §3 C18"),
  "C10": dict(
    text="Static decision of copy-on-write discipline of B-tree nodes (every write to a logical node field is on a fresh node, on the receiver of an in-place mutator whose call sites are all on private nodes, under a mutated() guard, or under commitLog in writeTo), lock pairing and lockset of tree/snapshot state, snapshots pinned to flushed roots, discard bounded by open snapshots, flush ordering. Necessary conditions of snapshot immutability, not equivalence with the abstract map.",
    note="Trusted: Go type checker, go/ssa, COW field table and mutator table in checker/c10.go.",
